@@ -51,7 +51,13 @@ import (
 	"strings"
 )
 
-type lbl struct{ name, src string }
+// lbl: a store, the locks that were held when the reference was loaded, and whether the label
+// was acquired by PUBLISHING a locally created object (pub) rather than by loading from shared
+// memory: only accesses through pub labels can be `fresh` (before the publication).
+type lbl struct {
+	name, src string
+	pub       bool
+}
 type lset map[lbl]bool
 
 // fnRef: a function literal together with the context whose variables it closes over.
@@ -99,6 +105,32 @@ func (v *aval) join(o aval) bool {
 		}
 	}
 	return a || b
+}
+
+// unpub: the value as seen by another function (a callee, the caller): whatever was published
+// is simply shared there.
+func unpub(v aval) aval {
+	conv := func(s lset) lset {
+		if len(s) == 0 {
+			return s
+		}
+		need := false
+		for l := range s {
+			if l.pub {
+				need = true
+				break
+			}
+		}
+		if !need {
+			return s
+		}
+		o := lset{}
+		for l := range s {
+			o[lbl{l.name, l.src, false}] = true
+		}
+		return o
+	}
+	return aval{top: conv(v.top), deep: conv(v.deep), fns: v.fns}
 }
 
 func (v aval) all() lset {
@@ -277,7 +309,7 @@ func elemType(t types.Type) types.Type {
 
 // children: the labels of the reference-typed fields of a struct value of type t that lives
 // in (or was copied out of) shared memory; nested struct-valued fields are flattened.
-func (an *aliasAn) children(t types.Type, base lset, src string, out lset, depth int) {
+func (an *aliasAn) children(t types.Type, base lset, src string, pub bool, out lset, depth int) {
 	if t == nil || depth > 6 {
 		return
 	}
@@ -291,15 +323,15 @@ func (an *aliasAn) children(t types.Type, base lset, src string, out lset, depth
 			ft := f.Type()
 			if isRefKind(ft) {
 				for _, n := range an.fieldNames(f, base) {
-					out[lbl{n, src}] = true
+					out[lbl{n, src, pub}] = true
 					an.noteType(n, ft)
 				}
 			} else if isStructVal(ft) {
-				an.children(ft, base, src, out, depth+1)
+				an.children(ft, base, src, pub, out, depth+1)
 			}
 		}
 	case *types.Array:
-		an.children(u.Elem(), base, src, out, depth+1)
+		an.children(u.Elem(), base, src, pub, out, depth+1)
 	}
 }
 
@@ -505,8 +537,8 @@ func (r *run) copyOut(v aval, t types.Type, n ast.Node) aval {
 		for l := range v.deep {
 			out.deep[l] = true
 		}
-		for _, sc := range r.srcs(v.top, n) {
-			r.an.children(t, v.top, sc, out.deep, 0)
+		for _, d := range r.derive(v.top, n) {
+			r.an.children(t, v.top, d.src, d.pub, out.deep, 0)
 		}
 		return out
 	}
@@ -518,14 +550,16 @@ func (r *run) emit(ls lset, write bool, copied bool, n ast.Node, root ast.Expr) 
 		return
 	}
 	h := r.heldAt(n)
-	fresh := false
+	rootFresh := false
 	if root != nil {
 		if v := r.rootVar(root); v != nil {
-			fresh = r.an.freshAt(r.fi, v, n.Pos())
+			rootFresh = r.an.freshAt(r.fi, v, n.Pos())
 		}
 	}
 	site := fmt.Sprintf("%s %s", r.fi.key, r.an.w.pos(n.Pos()))
 	for l := range ls {
+		// fresh: the object was created here and the label stems from its own (later) publication
+		fresh := rootFresh && l.pub
 		how := "escaped"
 		if subsetNames(l.src, h) {
 			how = "inRegion"
@@ -546,12 +580,12 @@ func (r *run) pkgVarLabel(v *types.Var, n ast.Node) aval {
 		return aval{}
 	}
 	pi := r.an.w.pkgs[v.Pkg().Path()]
-	if pi == nil || !pi.tracked || !r.an.refTyped(v.Type()) {
-		return aval{}
+	if pi == nil || !r.an.refTyped(v.Type()) {
+		return aval{} // not a variable of this module, or nothing mutable behind it
 	}
 	name := v.Pkg().Name() + "." + v.Name()
 	r.an.noteType(name, v.Type())
-	return aval{top: lset{lbl{name, lockNames(r.heldAt(n))}: true}}
+	return aval{top: lset{lbl{name, lockNames(r.heldAt(n)), false}: true}}
 }
 
 func (r *run) eval(e ast.Expr) aval {
@@ -674,8 +708,8 @@ func (r *run) selectField(x *ast.SelectorExpr, yv aval, fld *types.Var, lhs bool
 		names := an.fieldNames(fld, yv.top)
 		ls := lset{}
 		for _, n := range names {
-			for _, sc := range r.srcs(yv.top, x) {
-				ls[lbl{n, sc}] = true
+			for _, d := range r.derive(yv.top, x) {
+				ls[lbl{n, d.src, d.pub}] = true
 			}
 			an.noteType(n, R)
 		}
@@ -694,7 +728,7 @@ func (r *run) selectField(x *ast.SelectorExpr, yv aval, fld *types.Var, lhs bool
 				n = l.name
 			}
 			an.noteType(n, R)
-			out.top[lbl{n, src}] = true
+			out.top[lbl{n, src, l.pub}] = true
 		}
 	}
 	if !ref {
@@ -752,7 +786,7 @@ func (r *run) element(n ast.Node, yx ast.Expr, yv aval, lhs bool) aval {
 			for l := range yv.top {
 				nm := l.name + "[]"
 				an.noteType(nm, E)
-				out.top[lbl{nm, r.srcOf(l, n)}] = true
+				out.top[lbl{nm, r.srcOf(l, n), l.pub}] = true
 			}
 		}
 	} else if an.refTyped(E) {
@@ -792,17 +826,28 @@ func (r *run) srcOf(l lbl, n ast.Node) string {
 	return strings.Join(ks, ";")
 }
 
-func (r *run) srcs(base lset, n ast.Node) []string {
-	seen := map[string]bool{}
-	var out []string
+type derived struct {
+	src string
+	pub bool
+}
+
+// derive: the (locks, pub) attributes of references loaded now through the references in base.
+func (r *run) derive(base lset, n ast.Node) []derived {
+	seen := map[derived]bool{}
+	var out []derived
 	for l := range base {
-		s := r.srcOf(l, n)
-		if !seen[s] {
-			seen[s] = true
-			out = append(out, s)
+		d := derived{r.srcOf(l, n), l.pub}
+		if !seen[d] {
+			seen[d] = true
+			out = append(out, d)
 		}
 	}
-	sort.Strings(out)
+	sort.Slice(out, func(i, j int) bool {
+		if out[i].src != out[j].src {
+			return out[i].src < out[j].src
+		}
+		return !out[i].pub && out[j].pub
+	})
 	return out
 }
 
@@ -818,9 +863,9 @@ func (r *run) elemsOf(v aval, T types.Type, n ast.Node) lset {
 		src := r.srcOf(l, n)
 		r.an.noteType(nm, E)
 		if isStructVal(E) {
-			r.an.children(E, lset{lbl{nm, src}: true}, src, out, 0)
+			r.an.children(E, lset{lbl{nm, src, l.pub}: true}, src, l.pub, out, 0)
 		} else {
-			out[lbl{nm, src}] = true
+			out[lbl{nm, src, l.pub}] = true
 		}
 	}
 	for l := range v.deep {
@@ -846,12 +891,16 @@ func (r *run) publish(e ast.Expr, ls lset, n ast.Node) {
 	t := v.Type()
 	if isStructVal(t) {
 		out := lset{}
-		r.an.children(t, ls, lockNames(r.heldAt(n)), out, 0)
+		r.an.children(t, ls, lockNames(r.heldAt(n)), true, out, 0)
 		r.addDeep(v, out)
 		return
 	}
 	if isRefKind(t) {
-		r.addTop(v, ls)
+		pl := lset{}
+		for l := range ls {
+			pl[lbl{l.name, l.src, true}] = true
+		}
+		r.addTop(v, pl)
 	}
 }
 
@@ -901,9 +950,10 @@ func (r *run) assign(lhs ast.Expr, val aval, rhs ast.Expr, n ast.Node) {
 			slot := r.selectField(x, yv, fld, true)
 			if _, isMod := r.an.w.fieldOf[fld]; isMod && !r.an.w.tracked[fld] {
 				ls := lset{}
-				src := lockNames(r.heldAt(x))
 				for _, nm := range r.an.fieldNames(fld, yv.top) {
-					ls[lbl{nm, src}] = true
+					for _, d := range r.derive(yv.top, x) {
+						ls[lbl{nm, d.src, d.pub}] = true
+					}
 				}
 				r.emit(ls, true, false, x, x.X)
 			}
@@ -1047,7 +1097,7 @@ func (r *run) call(c *ast.CallExpr, isGo bool) []aval {
 						a = &aval{}
 						f.c.env[pv] = a
 					}
-					if a.join(r.copyOut(args[i], pv.Type(), c)) {
+					if a.join(unpub(r.copyOut(args[i], pv.Type(), c))) {
 						an.changed = true
 					}
 				}
@@ -1121,7 +1171,7 @@ func (r *run) builtin(name string, c *ast.CallExpr) []aval {
 					el := lset{}
 					if an.refTyped(elemType(T)) {
 						for l := range bv.top {
-							el[lbl{l.name + "[]", lockNames(r.heldAt(c))}] = true
+							el[lbl{l.name + "[]", lockNames(r.heldAt(c)), false}] = true
 							an.noteType(l.name+"[]", elemType(T))
 						}
 					}
@@ -1166,7 +1216,7 @@ func (r *run) cellLabel(recv ast.Expr, n ast.Node) lset {
 	out := lset{}
 	src := lockNames(r.heldAt(n))
 	for l := range rv.top {
-		out[lbl{l.name + "[]", src}] = true
+		out[lbl{l.name + "[]", src, false}] = true
 	}
 	if len(out) == 0 {
 		// a sync.Map value field of a shared struct: the field label
@@ -1175,7 +1225,7 @@ func (r *run) cellLabel(recv ast.Expr, n ast.Node) lset {
 				if fld, ok := sel.Obj().(*types.Var); ok {
 					if nm, ok := r.an.w.fieldOf[fld]; ok {
 						if bv := r.eval(sx.X); len(bv.top) > 0 {
-							out[lbl{nm + "[]", src}] = true
+							out[lbl{nm + "[]", src, false}] = true
 						}
 					}
 				}
@@ -1247,7 +1297,7 @@ func (r *run) callModule(c *ast.CallExpr, cfi *funcInfo, recv ast.Expr, recvVal 
 		if pv == nil {
 			return
 		}
-		cv := r.copyOut(v, pv.Type(), c)
+		cv := unpub(r.copyOut(v, pv.Type(), c))
 		a, ok := cc.env[pv]
 		if !ok {
 			a = &aval{}
@@ -1497,7 +1547,7 @@ func (r *run) stmt(s ast.Stmt) {
 					cur = append(cur, aval{})
 				}
 				for i := range vals {
-					if cur[i].join(r.copyOut(vals[i], r.typeOf(s.Results[min(i, len(s.Results)-1)]), s)) {
+					if cur[i].join(unpub(r.copyOut(vals[i], r.typeOf(s.Results[min(i, len(s.Results)-1)]), s))) {
 						r.an.changed = true
 					}
 				}
@@ -1510,7 +1560,7 @@ func (r *run) stmt(s ast.Stmt) {
 			if i >= len(r.c.ret) {
 				break
 			}
-			cv := r.copyOut(vals[i], sig.Results().At(i).Type(), s)
+			cv := unpub(r.copyOut(vals[i], sig.Results().At(i).Type(), s))
 			if r.c.ret[i].join(cv) {
 				r.an.changed = true
 			}
@@ -1601,7 +1651,7 @@ func (r *run) namedResults() {
 			continue
 		}
 		if a, ok := r.c.env[rv]; ok {
-			if r.c.ret[i].join(*a) {
+			if r.c.ret[i].join(unpub(*a)) {
 				r.an.changed = true
 			}
 		}
@@ -1693,7 +1743,7 @@ func (w *world) aliasAnalysis(fis []*funcInfo, freshAt func(fi *funcInfo, v *typ
 	seed := func(fi *funcInfo, role string) {
 		c := an.ctx(fi, role, held{})
 		if len(fi.params) > 0 && fi.params[0] != nil {
-			a := &aval{top: lset{lbl{"Server", ""}: true}}
+			a := &aval{top: lset{lbl{"Server", "", false}: true}}
 			c.env[fi.params[0]] = a
 		}
 	}
